@@ -587,6 +587,10 @@ def calendars(rng, n, zones=None):
         if rng.random() < 0.3:
             v0 = start.replace(hour=0) + timedelta(days=rng.randint(1, 6))
             vac.append((v0, v0 + timedelta(days=rng.randint(1, 2)) if rng.random() < 0.6 else None))
+        if rng.random() < 0.25:
+            # a company holiday that begins and ends in the middle of a working day (the first slot after it is a working slot)
+            v0 = start.replace(hour=0) + timedelta(days=rng.randint(1, 9), hours=rng.choice([10, 12, 14]))
+            vac.append((v0, v0 + timedelta(hours=rng.choice([2, 3, 24, 26, 49]))))
         gl = []
         if rng.random() < 0.2:
             v0 = start.replace(hour=0) + timedelta(days=rng.randint(1, 8))
@@ -2080,6 +2084,14 @@ def odd_inputs():
     add("alt_is_primary", "", 'task a "A" { effort 2d allocate r { alternative r, r2 } }\n')
     add("scen_duration", '  scenario plan "Plan" { scenario s1 "S1" }\n', 'task a "A" { effort 1d allocate r s1:duration 3d }\n')
     add("scen_length", '  scenario plan "Plan" { scenario s1 "S1" }\n', 'task a "A" { effort 1d allocate r s1:length 3d }\n')
+    # a candidate of an allocation that cannot deliver the effort before the slot tables end (the look-ahead that compares the
+    # candidates then runs to the very last slot), while another candidate can
+    out.append(("alt_primary_runs_out", 'project p "P" 2025-08-04 +3w {\n  timezone "UTC"\n}\nresource a "A" {\n  vacation 2025-08-06 - 2025-08-21\n}\n'
+                'resource b "B" {\n  efficiency 0.5\n}\ntask t "T" { effort 40h allocate a { alternative b } }\n'))
+    out.append(("alt_late_pin", 'project p "P" 2025-06-02 +2w {\n  timezone "UTC"\n}\nresource j "J" {}\nresource s "S" {\n  efficiency 2.0\n}\n'
+                'task t "T" { effort 24h start 2025-06-12-09:00 allocate j { alternative s } }\n'))
+    out.append(("alt_all_day_runs_out", 'project p "P" 2025-08-04 +1w {\n  timezone "UTC"\n}\nresource a "A" {\n  workinghours mon - sun 0:00 - 24:00\n  vacation 2025-08-05 - 2025-08-10\n}\n'
+                'resource b "B" {\n  workinghours mon - sun 0:00 - 24:00\n}\ntask t "T" { effort 100h allocate a { alternative b } }\n'))
     add("scen_duration_only", '  scenario plan "Plan" { scenario s1 "S1" }\n', 'task a "A" { s1:duration 3d }\ntask b "B" { s1:length 2d }\n')
     add("plain_duration", "", 'task a "A" { duration 3d }\ntask b "B" { length 2d depends !a }\n')
     add("undef_macro_date", "", 'task a "A" { effort 1d allocate r start ${nosuch} }\n')
